@@ -167,6 +167,17 @@ CHECKS["C17"] = dict(engine="wire", level="exploration", design_ref="5/C17",
          "status; wrapper attributes must equal exact references (Decimal(string), integer epoch arithmetic).",
     note="Status sets are the classic documented ones; default-valued options are not 'unset'. " + COMMON_NOTE)
 
+CHECKS["C18"] = dict(engine="wsfault", level="fault_enumeration", design_ref="5/C18",
+    technique="runtime monitoring under a virtual-time loop: the real websocket clients and realtime dispatcher against "
+              "an in-memory scripted peer (aiohttp iteration semantics) that records SUBSCRIBE frames, listen-key REST "
+              "calls and connection instants; offline per-connection obligation, routing, keep-alive cadence and "
+              "back-off checkers; fault scripts enumerated up to length 3 and random up to 12",
+    text="Four client kinds x every sequence of up to 3 fault / client actions (thorough) plus random longer scripts. "
+         "'Subscribed again' is a bounded per-connection obligation in virtual time, routing uses uniquely identified "
+         "messages, keep-alive cadence is checked per listen key.",
+    note="The fake peer mirrors aiohttp's client websocket surface used by basana but is not aiohttp itself; Bitstamp "
+         "private channel naming on the live service is not asserted. " + COMMON_NOTE)
+
 NOT_YET = {}
 
 
